@@ -244,6 +244,11 @@ def gen_scenarios(rng, quick):
     for mode in (0, 1, 2):
         add("srv", seed=rng.below(1 << 30), mode=mode, conns=2, apps=1, rounds=20, reent=1, raw=0, stop=0)
     add("cli", seed=rng.below(1 << 30), apps=1, rounds=20, reent=1, raw=0, close=0)
+    # stop / destroy while a peer is still connected, with an event handler that calls the API from the CLOSED notification
+    # (one connection: the DEACTIVATED path of the open finding is not involved)
+    for mode in (0, 1, 2):
+        for stop in (0, 2):
+            add("srv", seed=rng.below(1 << 30), mode=mode, conns=1, apps=1, rounds=(3000 if stop == 2 else 10), reent=1, raw=0, stop=stop)
     return plain, sc
 
 
